@@ -74,22 +74,33 @@ def wrap_data(d: dict[str, Any], yields: int = 1) -> dict[str, Any]:
 
 # ------------------------------------------------------------------ file-system sandbox
 
-_SANDBOXES: list[str] = []
+_SANDBOXES: list[tuple[int, str]] = []
 
 
 def _cleanup() -> None:
-    for d in _SANDBOXES:
-        shutil.rmtree(d, ignore_errors=True)
+    for pid, d in _SANDBOXES:
+        if pid == os.getpid():
+            shutil.rmtree(d, ignore_errors=True)
 
 
 atexit.register(_cleanup)
 
 
+def sandbox_base() -> str:
+    """One directory per check run, made by the parent process before the workers are forked and removed when the
+    parent exits: pool workers are terminated without running their exit handlers, so what they create goes here."""
+    base = os.environ.get("VERIF_SANDBOX_BASE")
+    if not base or not os.path.isdir(base):
+        base = tempfile.mkdtemp(prefix="verif_run_")
+        os.environ["VERIF_SANDBOX_BASE"] = base
+        _SANDBOXES.append((os.getpid(), base))
+    return base
+
+
 def sandbox(prefix: str = "verif_mc_") -> str:
-    """A private temporary directory removed at process exit (also when a pool worker is terminated:
-    the parent registers the same cleanup for directories created before the fork)."""
-    d = tempfile.mkdtemp(prefix=prefix)
-    _SANDBOXES.append(d)
+    """A private temporary directory removed at process exit, and with the run's base directory at the latest."""
+    d = tempfile.mkdtemp(prefix=prefix, dir=sandbox_base())
+    _SANDBOXES.append((os.getpid(), d))
     return d
 
 
